@@ -80,6 +80,8 @@ func remoteFn(c vkit.Call) vkit.Reply {
 		raw, _ := json.Marshal(map[string]any{"echo": echo, "level": level})
 
 		return vkit.Reply{Status: 200, Header: map[string]string{"Content-Type": "application/json", "X-Remote-Echo": echo}, Body: raw}
+	case strings.HasPrefix(c.Path, "/jwks"):
+		return vkit.JSONReply(200, jwksWithCertificate())
 	case strings.HasPrefix(c.Path, "/whoami"):
 		if c.Header.Get("X-Session") == "" {
 			return vkit.Reply{Status: 401}
@@ -688,7 +690,7 @@ func TestCacheNeverChangesADecision(t *testing.T) {
 	excl := map[string]bool{}
 
 	rapid.Check(t, func(t *rapid.T) {
-		family := rapid.SampledFrom([]string{"remote_authorizer", "generic_contextualizer", "generic_authenticator", "oauth2_introspection", "oauth2_client_credentials", "jwt_finalizer"}).Draw(t, "family")
+		family := rapid.SampledFrom([]string{"remote_authorizer", "generic_contextualizer", "generic_authenticator", "oauth2_introspection", "oauth2_client_credentials", "jwt_finalizer", "jwt_authenticator"}).Draw(t, "family")
 
 		var c caseSpec
 
@@ -701,6 +703,8 @@ func TestCacheNeverChangesADecision(t *testing.T) {
 			c = genIntrospectionCase(t)
 		case "jwt_finalizer":
 			c = genJWTFinalizerCase(t)
+		case "jwt_authenticator":
+			c = genJWTAuthenticatorCase(t)
 		default:
 			c = genClientCredentialsCase(t)
 		}
